@@ -110,10 +110,13 @@ func VerifH_C05_getCFilter() {
 	// ---- the response stream ----
 	nresp := vpRange("responses", 0, vpParam("maxresponses", 3))
 	stream := &vpMsgStream{}
+	var respBlk, respKind []int
 	for k := 0; k < nresp; k++ {
 		j := vpRange("respBlock", 1, nblocks)
 		bh := hdrs[j].BlockHash()
-		switch vpRange("respKind", 0, vpParam("kinds", 5)) {
+		kind := vpRange("respKind", 0, vpParam("kinds", 5))
+		respBlk, respKind = append(respBlk, j), append(respKind, kind)
+		switch kind {
 		case 0: // the honest filter of block j
 			stream.msgs = append(stream.msgs, wire.NewMsgCFilter(wire.GCSFilterRegular, &bh, datas[j]))
 		case 1: // data that is not the committed filter of block j
@@ -161,7 +164,8 @@ func VerifH_C05_getCFilter() {
 	}
 
 	// an earlier call may have left the (verified) filter of one block in the cache
-	if pre := vpRange("precached", 0, ft); pre > 0 {
+	pre := vpRange("precached", 0, ft)
+	if pre > 0 {
 		f, err := gcs.FromNBytes(builder.DefaultP, builder.DefaultM, datas[pre])
 		if err == nil {
 			pbh := hdrs[pre].BlockHash()
@@ -210,9 +214,32 @@ func VerifH_C05_getCFilter() {
 		}
 		vpAssert(int(g.StartHeight) >= 1 && int(g.StartHeight) <= target && target <= int(stopH) && int(stopH) <= ft, "request-range-covers-target-within-committed-chain")
 	}
+	// a filter can only come from somewhere legitimate: it was cached before,
+	// or a response of the requested type, for that very block, carrying the
+	// committed data was handed to the handler.  (A response labelled with
+	// another filter type justifies nothing, whatever its payload.)
+	justified := func(j int) bool {
+		if j == pre {
+			return true
+		}
+		for k := 0; k < stream.handled && k < len(respKind); k++ {
+			if respKind[k] == 0 && respBlk[k] == j {
+				return true
+			}
+		}
+		return false
+	}
+	if got != nil {
+		vpAssert(justified(target), "returned-filter-came-from-a-well-formed-response-for-that-block")
+	}
 	// cache and database hold only verified filters, under the right block
 	for j := 1; j <= nblocks; j++ {
 		bh := hdrs[j].BlockHash()
+		_, cerr := s.FilterCache.Get(FilterCacheKey{BlockHash: bh, FilterType: filterdb.RegularFilter})
+		_, derr := fdb.FetchFilter(&bh, filterdb.RegularFilter)
+		if cerr == nil || derr == nil {
+			vpAssert(justified(j), "stored-filter-came-from-a-well-formed-response-for-that-block")
+		}
 		if cf, err := s.FilterCache.Get(FilterCacheKey{BlockHash: bh, FilterType: filterdb.RegularFilter}); err == nil {
 			vpReach("cached")
 			vpAssert(j <= ft && vpFilterVerifies(cf.Filter, committed, j), "cached-filter-matches-committed-header")
